@@ -8,7 +8,8 @@ REPO = os.environ.get('VERIF_REPO', '/repo')
 HARMLESS_PROPS = {'H1': ['C05'], 'H2': ['C06'], 'H3': ['C10'], 'H4': ['C04'], 'H5': ['C01'], 'H6': ['C09'],
                   'H11': ['C02'], 'H12': ['C03'], 'H13': ['C02'], 'H14': ['C05'], 'H15': ['C02'], 'H16': ['C08'], 'H17': ['C06'], 'H18': ['C11'], 'H19': ['C05'], 'H20': ['C13'],
                   'H21': ['C07'], 'H22': ['C06'], 'H23': ['C04'], 'H24': ['C08'], 'H25': ['C02'], 'H26': ['C08'], 'H27': ['C08'], 'H28': ['C08'], 'H29': ['C09'], 'H30': ['C09'],
-                  'H31': ['C12'], 'H32': ['C06']}
+                  'H31': ['C12'], 'H32': ['C06'],
+                  'H33': ['C13'], 'H34': ['C13'], 'H35': ['C13'], 'H36': ['C08'], 'H37': ['C08'], 'H38': ['C08'], 'H39': ['C05'], 'H40': ['C11']}
 
 def sh(cmd, **kw):
     return subprocess.run(cmd, shell=True, stdout=subprocess.PIPE, stderr=subprocess.STDOUT, text=True, **kw)
